@@ -99,6 +99,16 @@ def _warm():
         yaml.safe_load("!!timestamp 2001-13-01")
     except yaml.YAMLError:
         pass
+    # a caller customises private subclasses of the safe and base loaders (in both orders of the two registration kinds):
+    # the shipped classes must stay confined - the generated documents use these tags too
+    for Base in [yaml.SafeLoader, yaml.BaseLoader] + ([yaml.CSafeLoader, yaml.CBaseLoader] if have_c() else []):
+        A = type("AppLoaderA", (Base,), {})
+        A.add_multi_constructor("!app-m/", lambda loader, suffix, node: object())
+        A.add_constructor("!app-c", lambda loader, node: object())
+        B = type("AppLoaderB", (Base,), {})
+        B.add_constructor("!app-c2", lambda loader, node: object())
+        B.add_multi_constructor("!app-m2/", lambda loader, suffix, node: object())
+        B.add_implicit_resolver("!app-c2", __import__("re").compile("^app$"), ["a"])
     _warm.done = True
 
 
